@@ -342,7 +342,24 @@ class C05(Prop):
                    "treeinfo 0.0 (pre-productmd) has no documented mapping: only idempotence, the shipped fixtures and correspondence "
                    "with the model of the heuristics are claimed",
                    "int(float(text)) of CPython is supplied to the model as an oracle table (floats are never computed in Lean)"]
-    partial = {}
+    partial = {
+        "C05_images_idempotent_partial": "hypothesis Uniq (identity collisions): automatic from 1.1 on (C05_images_uniq_from_1_1), a real "
+                                         "restriction for <= 1.0 documents (F11, C05_images_F11_witness); equality of the re-read manifest is "
+                                         "as multisets of filings (C02), byte equality of the second text is validated per case",
+        "C05_ci_loaded_is_normal_partial": "compose/release sections valid and WellKeyed are proved for every version; validity of every variant "
+                                           "against its parent and the sorted order of children are not (validated per case)",
+        "C05_ci_idempotent_partial": "hypotheses UidsDistinct (decidable) and 'the writer accepts the loaded object' (serialize x = ok j) are "
+                                     "explicit; that every loaded object with distinct UIDs is writable is validated per case, not proved",
+        "C05_ti_loaded_is_normal_partial": "per-section validity and current header for every version incl. 0.0; no Lean idempotence theorem for "
+                                           "treeinfo because C04 has no reader-half theorem to compose with: idempotence is proved on witnesses "
+                                           "(0.3, 0.0) and validated on every fixture / generated file",
+        "C05_ci_upgrade_witness": "faithfulness for composeinfo is proved per section / on witnesses (C05_ci_upgrade_witness, "
+                        "C05_ci_faithful_product_not_internal); the general forest theorem deserialize_v (down_v x) = ok (expect_v x) is "
+                        "not proved (validated per case by the spec-level down-converter)",
+        "C05_rpms_faithful_witness": "the general re-filing statement for 0.3 manifests is C10's (C10_rpms_refile); here a witness",
+        "C05_ti_upgrade_0_0_witness": "treeinfo 0.0 has no documented mapping other than the code: only idempotence, the 60 shipped "
+                                      "pre-productmd fixtures and correspondence of the modelled heuristics are claimed",
+    }
 
     def __init__(self):
         self._cur = None
@@ -815,10 +832,23 @@ def first_text_diff(a, b):
 PROP = C05()
 
 MANIFEST = dict(
-    technique="Lean 4 proof over legacy-aware readers (composeinfo 0.x/1.0/1.1, images 1.0/1.1, rpms 0.3, treeinfo 0.0/0.3/1.x) "
-              "selected by the version gates regenerated from the source, on top of the C01-C04 writer/reader models; differential "
-              "correspondence on every shipped fixture and on generated content down-converted per the format documentation; "
-              "faithfulness / idempotence oracle on the real library",
-    text="see lean/ProductMD/Properties/C05.lean",
-    note="treeinfo 0.0 (pre-productmd heuristics): idempotence, fixtures and correspondence only (no documented mapping)",
+    technique="Lean 4 proof over legacy-aware readers added on top of the C01-C04 / C03 / C12 / C15 models - composeinfo 0.x (date/type/respin "
+              "from the id, `product` section, UID-prefix forest), images <= 1.0 / <= 1.1 / compose 0.x, rpms 0.3 (manifest replayed through the "
+              "Rpms.add model), treeinfo 0.0 (pre-productmd heuristics, RHEL/Fedora/CentOS cases, _fix_path, option_lookup chains) and <= 0.3 "
+              "- every branch selected by the version gate regenerated from the source; differential correspondence (snapshots after load, "
+              "written bytes, snapshots after reload, second bytes, refusal classes) on all 73 shipped fixtures and on generated content "
+              "down-converted per the format documentation to every boundary version; faithfulness / idempotence oracle on the real library",
+    text="Gates as comparisons of pairs of naturals for EVERY version (C05_images_gates, C05_rpms_gates, C05_ci_gates, C05_ti_gates_0_0 / "
+         "_le_0_3 / _gt_0_3): a flipped operator or moved bound stops the proof. Legacy readers extend the current ones "
+         "(C05_*_extends_C0n). Loaded-is-normal for any version: images (valid images with proper ints, admissible arches, valid compose, current "
+         "version), rpms (current version, valid compose, JSON-representable mapping - unconditionally for a replayed 0.3 manifest), composeinfo "
+         "(sections valid, WellKeyed at every depth for explicit and prefix-derived forests), treeinfo incl. 0.0 (current header, every section "
+         "object validated). Idempotence as corollaries: images with C02 (Uniq automatic from 1.1), rpms with C03 (bytes), composeinfo with C01 "
+         "(readback + fixpoint); the re-read goes through the CURRENT reader, i.e. conversion happens once. Faithful: images subvariant default "
+         "and version independence from 1.1 (all 15 attributes), product section never internal, witnesses for rpms 0.2, composeinfo 0.2, "
+         "treeinfo 0.3 and 0.0 evaluated in the kernel; F11 / F12 / F32 witnesses.",
+    note="Partial: no general forest-faithfulness theorem for composeinfo < 1.0 and no Lean idempotence theorem for treeinfo (C04 has no "
+         "reader-half theorem); both are validated per case. treeinfo 0.0: idempotence + fixtures + correspondence only. Known findings met: "
+         "F10 (respin >= 8 digits decoded from the id), F11, F12, F24 (top-level addon), F32 (legacy forest of depth >= 3 refused). "
+         "Documents reach both sides with sorted keys; int(float(text)) is an oracle table.",
     ref="7/C05")
